@@ -6,6 +6,7 @@ import Proofs.C01Sound
 import Proofs.C01Shift
 import Proofs.C01Misc
 import Proofs.C01Ident
+import Proofs.C01Pow2E2E
 /-! # C01 — typed expressions over basic types evaluate exactly as compiled Go
 
 Structure of the argument (see notes/C01.md):
@@ -176,6 +177,37 @@ theorem pow2_arms_eval (F : FloatOps) (k : Kind) (ik : IKind) (hk : k.ikind? = s
    fun hs => C01Misc.remPow2U_eval F k ik hk hs x y ρ h.1 h.2.1,
    fun sub => (C01Misc.mulPow2_default_eval F k ik sub x y L ρ h).1,
    (C01Misc.mulPow2_default_eval F k ik [] x y L ρ h).2⟩
+
+/-- the prologue of mulPow2/quoPow2/remPow2 (hand model `Dispatch.pow2Prologue`, transcribing `sy := yv.Int();
+    if sy < 0 { ypositive = false; y = uint64(-sy) } else { y = uint64(sy) }` / `y = yv.Uint()`): when the guard
+    `isPowerOfTwo(y)` holds, the constant is `±2^j` with `j < w` (positive: `j ≤ w-2`), `shift = j`, and the mask
+    `T(y-1)` is `2^j - 1` at the operand width — also for the constant `MinInt` where `uint64(-sy)` wraps -/
+theorem pow2Prologue_spec (ik : IKind) (hw0 : 0 < ik.w) (hw : ik.w ≤ 64) (c : BitVec ik.w) (p : Dispatch.Pow2Info)
+    (hp : Dispatch.pow2Prologue (.int ik c) = some p) (hpow : Pow2.isPowerOfTwo p.y = true) :
+    ∃ j, j < ik.w ∧ p.y = BitVec.twoPow 64 j ∧ Pow2.integerLen p.y = j + 1 ∧
+      (p.y - 1#64).setWidth ik.w = BitVec.twoPow ik.w j - 1#ik.w ∧
+      (if ik.signed then (if p.ypositive then c = BitVec.twoPow ik.w j ∧ j + 1 < ik.w else c = -(BitVec.twoPow ik.w j))
+       else (p.ypositive = true ∧ c = BitVec.twoPow ik.w j)) :=
+  C01Pow2.pow2Prologue_spec ik hw0 hw c p hp hpow
+
+/-- **pow2_const_sound (end to end).**  For a constant `c` of an integer kind that passes the guard, the
+    arm selected by the prologue, run with the prologue's captured variables, computes Go's `x / c`,
+    `x % c`, `x * c` for every `x` (signed: truncated division / remainder with the dividend's sign,
+    incl. `MinInt` as dividend or divisor; unsigned: `udiv`/`umod`). -/
+theorem pow2_const_sound (F : FloatOps) (k : Kind) (ik : IKind) (hk : k.ikind? = some ik) (hw0 : 0 < ik.w) (hw : ik.w ≤ 64)
+    (c x : BitVec ik.w) (p : Dispatch.Pow2Info) (hp : Dispatch.pow2Prologue (.int ik c) = some p)
+    (hpow : Pow2.isPowerOfTwo p.y = true) (ρ : Store)
+    (h : C01Misc.pow2Ctx ρ k (.ok (.int ik x)) p.y (BitVec.ofNat 8 (Pow2.integerLen p.y))) :
+    (ik.signed = true →
+      evalArm F ρ ((quoPow2Signed k).getD (if p.ypositive then 0 else 1) default).arm = some (.ok (.int ik (x.sdiv c))) ∧
+      evalArm F ρ (remPow2Signed k).arm = some (.ok (.int ik (x.srem c))) ∧
+      (p.ypositive = true → ∀ sub, evalArm F ρ (mulPow2Default k sub).arm = some (.ok (.int ik (x * c)))) ∧
+      (p.ypositive = false → evalArm F ρ (mulPow2Neg k).arm = some (.ok (.int ik (x * c))))) ∧
+    (ik.signed = false →
+      evalArm F ρ (quoPow2Unsigned k).arm = some (.ok (.int ik (x / c))) ∧
+      evalArm F ρ (remPow2Unsigned k).arm = some (.ok (.int ik (x % c))) ∧
+      (∀ sub, evalArm F ρ (mulPow2Default k sub).arm = some (.ok (.int ik (x * c))))) :=
+  C01Pow2.pow2_const_sound F k ik hk hw0 hw c x p hp hpow ρ h
 
 /-- **quoPow2_correct**: `x / 2^k` as add-`2^k-1`-if-negative then arithmetic shift, every width, every `x` -/
 theorem quoPow2_correct {w : Nat} (x : BitVec w) (k : Nat) (hk : k + 1 < w) :
